@@ -14,6 +14,7 @@ package main
 // answering (the dump is kept in memory between ops).
 
 import (
+	"math"
 	"bufio"
 	"context"
 	"encoding/json"
@@ -71,7 +72,9 @@ func genValue(rng *Rng, depth int, bigInts bool) any {
 		}
 		return Pick(rng, []int64{0, 1, -1, 42, 1 << 31, -(1 << 40), 9007199254740992, -9007199254740991})
 	case 3:
-		return Pick(rng, []float64{0.5, -2.25, 1e21, 1e-7, 3.141592653589793, 1.7976931348623157e308, 5e-324, 123456.789})
+		// non-integral, exponent forms, and integral floats: inside int64 (come back as int64), beyond int64 (stay float64), negative zero
+		return Pick(rng, []float64{0.5, -2.25, 1e21, 1e-7, 3.141592653589793, 1.7976931348623157e308, 5e-324, 123456.789, 0.1,
+			3, -7, 4503599627370496, 9223372036854775808, -9223372036854775808, 1e20, math.Copysign(0, -1)})
 	case 4, 5, 6:
 		return Pick(rng, c18Strings)
 	case 7:
@@ -100,12 +103,56 @@ func genProps(rng *Rng, bigInts bool) string {
 	for i, k := 0, 1+rng.Intn(3); i < k; i++ {
 		m[Pick(rng, []string{"name", "objectid", "count", "tags", "meta", "a b", "ключ"})] = genValue(rng, 0, bigInts)
 	}
-	// the op-line text must be a fixpoint of parse→encode (integral floats print as integers)
-	v, err := parseJSONValue(canonJSON(m))
-	if err != nil {
-		return "{}"
+	// typed text: a float64 always carries '.', an exponent or "-0.0", an int64 never does; parse of it gives the same Go types back
+	return typedJSON(m)
+}
+
+// typedJSON renders a property value as JSON text that shows the Go type of every number: int64 as an integer literal,
+// float64 as encoding/json writes it, with ".0" appended when that text is an integer literal or "-0".
+func typedJSON(v any) string {
+	var sb strings.Builder
+	typedJSONInto(&sb, v)
+	return strings.ReplaceAll(sb.String(), " ", escSpace)
+}
+
+func typedJSONInto(sb *strings.Builder, v any) {
+	switch x := v.(type) {
+	case map[string]any:
+		keys := make([]string, 0, len(x))
+		for k := range x {
+			keys = append(keys, k)
+		}
+		sort.Strings(keys)
+		sb.WriteByte('{')
+		for i, k := range keys {
+			if i > 0 {
+				sb.WriteByte(',')
+			}
+			sb.WriteString(strings.ReplaceAll(canonJSON(k), escSpace, " "))
+			sb.WriteByte(':')
+			typedJSONInto(sb, x[k])
+		}
+		sb.WriteByte('}')
+	case []any:
+		sb.WriteByte('[')
+		for i, e := range x {
+			if i > 0 {
+				sb.WriteByte(',')
+			}
+			typedJSONInto(sb, e)
+		}
+		sb.WriteByte(']')
+	case float64:
+		t := strings.ReplaceAll(canonJSON(x), escSpace, " ")
+		if !strings.ContainsAny(t, ".eE!") {
+			t += ".0"
+		}
+		sb.WriteString(t)
+	case float32:
+		sb.WriteString("!float32")
+	default:
+		sb.WriteString(strings.ReplaceAll(canonJSON(x), escSpace, " "))
 	}
-	return canonJSON(v)
 }
 
 func genKinds(rng *Rng, pool []string) []string {
@@ -238,6 +285,14 @@ func (s c18Suite) Gen(rng *Rng, tier string, w *bufio.Writer, stats *Stats) {
 	fmt.Fprintf(w, "scaledump %s\n", Pick(rng, []string{"none", "gzip", "zstd"}))
 	fmt.Fprintln(w, "scaleverify")
 	fmt.Fprintln(w, "scalemutate")
+	stats.Inc("cases")
+	// values JSON cannot express: the dump fails, no manifest
+	caseNo++
+	fmt.Fprintf(w, "# case %d unsupported float values\n", caseNo)
+	fmt.Fprintln(w, "reset")
+	for _, k := range []string{"nan", "inf", "-inf"} {
+		fmt.Fprintf(w, "nandump %s\n", k)
+	}
 	stats.Inc("cases")
 	for d := 0; d < nDB; d++ {
 		bigInts := d%6 == 5 // int64 beyond 2^53 round-trip exactly since the UseNumber fix
@@ -392,6 +447,8 @@ func (r *c18Runner) Step(_ []string, raw string) string {
 		return r.dump(t)
 	case (len(t) == 6 || len(t) == 7) && t[0] == "idump":
 		return r.idump(t)
+	case len(t) == 2 && t[0] == "nandump":
+		return r.nanDump(t[1])
 	case len(t) == 2 && t[0] == "scale":
 		return r.scale(t[1])
 	case len(t) == 2 && t[0] == "scaledump":
@@ -410,6 +467,38 @@ func (r *c18Runner) Step(_ []string, raw string) string {
 		return r.mutate(t)
 	}
 	return "bad-op"
+}
+
+// nanDump: a float64 property that JSON cannot express (NaN, +Inf, -Inf). The dump must fail and leave no manifest.
+func (r *c18Runner) nanDump(which string) string {
+	var f float64
+	switch which {
+	case "nan":
+		f = math.NaN()
+	case "inf":
+		f = math.Inf(1)
+	case "-inf":
+		f = math.Inf(-1)
+	default:
+		return "bad-op"
+	}
+	src := newSrcDB()
+	src.step([]string{"graph", "g"})
+	src.db.AddNode("g", 1, []string{"A"}, map[string]any{"x": []any{int64(1), f}})
+	return withTempDir(func(dir string) string {
+		out := dir + "/out"
+		_, err := retriever.Dump(context.Background(), src.db, "fake", src.targets, retriever.DefaultDumpOptions(out))
+		_, hasManifest := readTree(out)[retriever.ManifestFileName]
+		switch {
+		case err != nil && !hasManifest:
+			r.stats.Inc("nandump.rejected")
+			return "nandump rejected"
+		case err != nil:
+			return "nandump error-with-manifest"
+		default:
+			return "nandump dumped"
+		}
+	})
 }
 
 func (r *c18Runner) dump(t []string) string {
@@ -707,6 +796,13 @@ func (r *c18Runner) load(t []string) string {
 	})
 }
 
+func typedProps(m map[string]any) string {
+	if m == nil {
+		return "{}"
+	}
+	return typedJSON(m)
+}
+
 func nodeSig(kinds []string, props map[string]any) string {
 	ks := append([]string(nil), kinds...)
 	sort.Strings(ks)
@@ -764,14 +860,14 @@ func (r *c18Runner) loaded() string {
 			return "?"
 		}
 		for _, n := range dg.Nodes {
-			fmt.Fprintf(&sb, " N %s %s %s", name(n.ID), kindsTok(n.Kinds), canonJSON(n.Props))
+			fmt.Fprintf(&sb, " N %s %s %s", name(n.ID), kindsTok(n.Kinds), typedProps(n.Props))
 		}
 		for _, e := range dg.Edges {
 			kind := e.Kind
 			if kind == "" {
 				kind = "-"
 			}
-			fmt.Fprintf(&sb, " E %s %s %s %s", name(e.Start), name(e.End), kind, canonJSON(e.Props))
+			fmt.Fprintf(&sb, " E %s %s %s %s", name(e.Start), name(e.End), kind, typedProps(e.Props))
 		}
 	}
 	return sb.String()
